@@ -139,6 +139,15 @@ CLAIMED["C04"] = ("Partial proof, of the generic (pure Go) CCM in cipher/ccm.go 
  "Trusted: crypto/cipher.NewCTR and Stream.XORKeyStream (abstract stream), cipher.Block interface, (*ccm).cmac (frame), MaxLength, subtle.XORBytes/ConstantTimeCompare, alias.InexactOverlap; Open's dst does not overlap the received tag.",
  "DESIGN.md §0.2, §4 C04")
 
+CLAIMED["C16"] = ("Partial proof of the SignedData verification gates and of the BER reader: verifySignature returns nil only if - with authenticated attributes present - the messageDigest attribute compared equal "
+ "(constant time) with the digest of exactly the message content (or with the content itself in digest mode) and the signature was then checked over the DER of the attributes, otherwise over the content; "
+ "always with the certificate selected by the signer's issuer and serial number and with the signer's own signature value; and, when a trust store is given, only after the chain verification of that certificate "
+ "succeeded; verifyWithChain requires at least one signer and verifies every signer in turn (a missing loop or a skipped signer fails an obligation); the hand-written BER reader (readObject, "
+ "isIndefiniteTermination) never indexes outside its input and terminates (measure) for every byte string. Not decided: that no alteration of an encoded message still verifies (whole-message property over "
+ "encoding/asn1 and x509), signing (NewSignedData/AddSigner/Finish), EnvelopedData/EncryptedData recipient lookup and decryption, SignedAndEnvelopedData, ber2der leaving DER unchanged, cfca wrappers.",
+ "Trusted: getCertFromCertsByIssuerAndSerial, unmarshalAttribute, marshalAttributes, getHashForOID/newHash, verifyCertChain, Certificate.CheckSignature(WithDigest) (frames only), hash.Hash interface, subtle.ConstantTimeCompare.",
+ "DESIGN.md §0.2, §4 C16")
+
 NOT_APPLICABLE = {
  "C02": "Not reached by the contract technique in this build: the SM4 round function (S-box tables, 32-bit rotations, XOR network) needs the bit-vector mode of the verifier, which exists only as a skeleton; the AES-NI/AVX assembly tiers are outside any Go-level contract. The Go wrappers around the SM4 assembly that cipher modes use are covered under C03. No other technique was substituted.",
  "C04": "GCM/CCM: table-driven GHASH and the fused SM4-GCM assembly need bit-vector reasoning over carry-less multiplication that the arith-mode VC generator cannot express; CCM's Go glue was planned but not reached in this build.",
